@@ -257,7 +257,7 @@ pub fn run(s: &Scn, ctx: &mut RunCtx) -> RunOutput {
             }};
         }
         if scn.shared {
-            let mut b = SharedCacheLayer::<Req, u32, crate::inner::Resp>::builder().max_size(scn.max_size as usize).eviction_policy(policy).key_extractor(|r: &Req| r.key);
+            let mut b = SharedCacheLayer::<Req, CKey, crate::inner::Resp>::builder().max_size(scn.max_size as usize).eviction_policy(policy).key_extractor(|r: &Req| CKey(r.key));
             if let Some(t) = scn.ttl_ms {
                 b = b.ttl(if t == u64::MAX { Duration::MAX } else { Duration::from_millis(t) });
             }
@@ -273,7 +273,7 @@ pub fn run(s: &Scn, ctx: &mut RunCtx) -> RunOutput {
                 }
             }
         } else {
-            let mut b = CacheLayer::<Req, u32>::builder().max_size(scn.max_size as usize).eviction_policy(policy).key_extractor(|r: &Req| r.key);
+            let mut b = CacheLayer::<Req, CKey>::builder().max_size(scn.max_size as usize).eviction_policy(policy).key_extractor(|r: &Req| CKey(r.key));
             if let Some(t) = scn.ttl_ms {
                 b = b.ttl(if t == u64::MAX { Duration::MAX } else { Duration::from_millis(t) });
             }
